@@ -99,7 +99,16 @@ def relayout(d, rnd):
     """a meaning-preserving re-layout: multiply spaces inside paragraph lines (not at line starts, not in code)"""
     out = []
     fence = None
+    # lines that flowmark's own parser holds as code-block content are never touched (fence tracking below is only a
+    # line-level approximation: an indented code block may itself contain fence-like lines)
+    try:
+        code = {c.strip() for sp in D.literal_spans(d) if sp[0] == "codeblock" for c in sp[3].split("\n") if c.strip()}
+    except Exception:
+        code = set()
     for line in d.split("\n"):
+        if any(line.rstrip().endswith(c) for c in code):
+            out.append(line)
+            continue
         m = re.match(r"^(?:[ >]|(?:[-*+]|\d+[.)]) )*(`{3,}|~{3,})", line)
         was = fence
         if m:
